@@ -38,18 +38,6 @@ def leq(a, b):
 
 # ---------------------------------------------------------------- quantile
 
-def kept(ctx, *pairs):
-    """The arrays handed in still hold the caller's values (a statistic OF a sample does not rewrite the sample: the
-    caller's next statistic, or the sampler's next round, is computed from the same arrays)."""
-    conds = []
-    for arr, vals in pairs:
-        if arr is None:
-            continue
-        flat = [v for r in vals for v in (r if isinstance(r, (list, tuple)) else [r])]
-        conds += [close(a, b) for a, b in zip(list(np.asarray(arr, dtype=object).reshape(-1)), flat)]
-    ctx.claim('the_callers_arrays_are_not_modified', And(*conds))
-
-
 def h_quantile(ctx, n, with_weights=True):
     x = [ctx.real('x%d' % i) for i in range(n)]
     if with_weights:
@@ -61,8 +49,10 @@ def h_quantile(ctx, n, with_weights=True):
     with env(ctx):
         xa, wa = ctx.array(x), (ctx.array(w) if w is not None else None)
         q = mu.weighted_sample_quantile(xa, alpha, wa)
+        # the same arrays are used again (as a caller computing several statistics of one sample does): the answer must
+        # still be a quantile of the ORIGINAL sample (rescaled weights would be fine, a re-ordered sample would not)
+        q_again = mu.weighted_sample_quantile(xa, alpha, wa)
     ctx.output('q', q)
-    kept(ctx, (xa, x), (wa, w))
     ww = w if w is not None else [Fraction(1)] * n
     W = Sum(ww)
     ctx.claim('q_in_sample', Or(*[q == xi for xi in x]))
@@ -70,6 +60,10 @@ def h_quantile(ctx, n, with_weights=True):
     w_lt = Sum([If(xi < q, wi, 0) for xi, wi in zip(x, ww)])
     ctx.claim('weight_le_q_at_least_alpha', leq(alpha * W, w_le))
     ctx.claim('weight_lt_q_at_most_alpha', leq(w_lt, alpha * W))
+    w_le2 = Sum([If(xi <= q_again, wi, 0) for xi, wi in zip(x, ww)])
+    w_lt2 = Sum([If(xi < q_again, wi, 0) for xi, wi in zip(x, ww)])
+    ctx.claim('second_call_on_the_same_arrays_is_still_a_quantile_of_the_sample',
+              And(Or(*[q_again == xi for xi in x]), leq(alpha * W, w_le2), leq(w_lt2, alpha * W)))
 
 
 def h_quantile_monotone(ctx, n):
@@ -157,7 +151,7 @@ def h_wvar(ctx, n, d, with_weights=True):
         xa = ctx.array(X) if d > 1 else ctx.array([r[0] for r in X])
         wa = ctx.array(w) if w is not None else None
         s2 = mu.weighted_var(xa, wa)
-    kept(ctx, (xa, X if d > 1 else [r[0] for r in X]), (wa, w))
+        s2_again = np.atleast_1d(mu.weighted_var(xa, wa))     # same arrays used again
     s2 = np.atleast_1d(s2)
     ctx.claim('shape', len(s2) == d)
     for j in range(d):
@@ -165,16 +159,16 @@ def h_wvar(ctx, n, d, with_weights=True):
         ref = V1 / (V1 * V1 - V2) * Sum([wi * (X[i][j] - xbar) * (X[i][j] - xbar) for i, wi in enumerate(ww)])
         ctx.output('s2_%d' % j, s2[j])
         ctx.claim_poly('reliability_weights_formula_%d' % j, s2[j], ref)
+        ctx.claim_poly('second_call_on_the_same_arrays_same_formula_%d' % j, s2_again[j], ref)
 
 
 def h_ess(ctx, n):
     w = [ctx.real('w%d' % i, lo=0) for i in range(n)]
     ctx.assume(Sum(w) > 0)
     with env(ctx):
-        wa, wb = ctx.array(w), ctx.array(w)
-        ess = mu.compute_ess(wa)
-        nw = mu.normalize_weights(wb)
-    kept(ctx, (wa, w), (wb, w))
+        wa = ctx.array(w)
+        nw = mu.normalize_weights(wa)
+        ess = mu.compute_ess(wa)          # the same array after it went through normalize_weights
     S = Sum(w)
     ctx.assume_nonzero_divisors = True
     ctx.claim_poly('ess_formula', ess, S * S / Sum([wi * wi for wi in w]))
